@@ -2,6 +2,8 @@
 package nodemap
 
 import (
+	"math"
+
 	"capnproto.org/go/capnp/v3"
 	"capnproto.org/go/capnp/v3/internal/schema"
 	"capnproto.org/go/capnp/v3/schemas"
@@ -39,6 +41,10 @@ func (m *Map) Find(id uint64) (schema.Node, error) {
 	if err != nil {
 		return schema.Node{}, err
 	}
+	// The nodes are cached and re-read on every lookup for as long as the
+	// map lives.  The schema is trusted, compiled-in data: do not let the
+	// per-message traversal limit run out after many lookups.
+	msg.ResetReadLimit(math.MaxUint64)
 	req, err := schema.ReadRootCodeGeneratorRequest(msg)
 	if err != nil {
 		return schema.Node{}, err
